@@ -70,6 +70,17 @@ def map_stone_type_to_python_type(ns, data_type, override_dict=None):
         return 'datetime.datetime'
     elif is_alias(data_type):
         alias_type = cast(Alias, data_type)
+        unwrapped_dt = alias_type.data_type
+        while is_alias(unwrapped_dt):
+            unwrapped_dt = cast(Alias, unwrapped_dt).data_type
+        if (is_user_defined_type(unwrapped_dt) and
+                alias_type.namespace.name != ns.name and
+                cast(UserDefined, unwrapped_dt).namespace.name not in (
+                    ns.name, alias_type.namespace.name)):
+            # The module of ns imports the alias's namespace, which binds the
+            # alias to the class, but not necessarily the class's namespace.
+            return '{}.{}'.format(
+                fmt_namespace(alias_type.namespace.name), alias_type.name)
         return map_stone_type_to_python_type(ns, alias_type.data_type, override_dict)
     elif is_user_defined_type(data_type):
         user_defined_type = cast(UserDefined, data_type)
